@@ -31,7 +31,7 @@ round-half-even of that exact value, text is `List Char`)
 
 Everything is proven for all inputs (induction on rows / digits / paths); no clause is `_partial`.
 What is *not* a theorem and is tied by the correspondence check on every run: that the model's
-`saveText` / `savePath` / `closePolyline` / `readBenchmark` / `linspaceEnd` compute what the
+`saveText` / `savePath` / `closePolyline` / `readBenchmark` / `linspaceEndF` compute what the
 Python code (numpy's savetxt, os.path.splitext, matplotlib, pandas.read_csv) computes.
 -/
 import VirVerif.Model.Export
